@@ -188,9 +188,19 @@ theorem abortOuts_any_close (text : Bytes) (bad : Option Nat) :
 
 theorem dispatchIncoming_no_close (m : Msg) : (dispatchIncoming m).any Out.isClose = false := by
   unfold dispatchIncoming
+  split <;> rfl
+
+theorem deliver_no_close (m : Msg) : (deliver m).any Out.isClose = false := by
+  unfold deliver
   split
   · rfl
-  · split <;> rfl
+  · exact dispatchIncoming_no_close m
+
+theorem deliver_empty {m : Msg} (h : m.code = 0) : deliver m = [] := by
+  unfold deliver; rw [if_pos h]
+
+theorem deliver_nonempty {m : Msg} (h : m.code ≠ 0) : deliver m = dispatchIncoming m := by
+  unfold deliver; rw [if_neg h]
 
 /-- the cases of one loop iteration, with everything named -/
 theorem step_cases (c : Conn) :
@@ -214,11 +224,11 @@ theorem step_cases (c : Conn) :
             step c =
             .next (processSignaling (c.consume (to + tkl + len)) m).1
                   (processSignaling (c.consume (to + tkl + len)) m).2) ∨
-         (m.code < 224 ∧ c.csm = none ∧ step c =
+         (m.code < 224 ∧ (m.code ≠ 0 ∧ c.csm = none) ∧ step c =
             .stop ((c.consume (to + tkl + len)).note
                     (abortOuts txtNoCsm none)) (abortOuts txtNoCsm none)) ∨
-         (m.code < 224 ∧ c.csm ≠ none ∧ step c =
-            .next (c.consume (to + tkl + len)) (dispatchIncoming m)))) := by
+         (m.code < 224 ∧ (m.code = 0 ∨ c.csm ≠ none) ∧ step c =
+            .next (c.consume (to + tkl + len)) (deliver m)))) := by
   unfold step
   cases hx : extractSize c.spool with
   | none => left; exact ⟨rfl, Or.inl rfl⟩
@@ -242,16 +252,19 @@ theorem step_cases (c : Conn) :
           · cases hcl : (processSignaling (c.consume (to + tkl + len)) m).1.closed with
             | true => left; exact ⟨h3, rfl, by simp [h1, h2, hd, h3, hcl]⟩
             | false => right; left; exact ⟨h3, rfl, by simp [h1, h2, hd, h3, hcl]⟩
-          · by_cases h4 : c.csm = none
-            · right; right; left
-              exact ⟨by omega, h4, by simp [h1, h2, hd, h3, h4]⟩
+          · by_cases h0 : m.code = 0
             · right; right; right
-              refine ⟨by omega, h4, ?_⟩
-              have : c.csm.isNone = false := by
-                cases hc : c.csm with
-                | none => exact absurd hc h4
-                | some _ => rfl
-              simp [h1, h2, hd, h3, this]
+              exact ⟨by omega, Or.inl h0, by simp [h1, h2, hd, h3, h0, deliver]⟩
+            · by_cases h4 : c.csm = none
+              · right; right; left
+                exact ⟨by omega, ⟨h0, h4⟩, by simp [h1, h2, hd, h3, h0, h4]⟩
+              · right; right; right
+                refine ⟨by omega, Or.inr h4, ?_⟩
+                have : c.csm.isNone = false := by
+                  cases hc : c.csm with
+                  | none => exact absurd hc h4
+                  | some _ => rfl
+                simp [h1, h2, hd, h3, h0, this, deliver]
 
 /-- an iteration that did something does exactly the same when more data is already there:
 the header is readable from the same bytes and the frame is cut at the same place -/
@@ -296,19 +309,26 @@ theorem step_app (c : Conn) (t : Bytes) (h : step c ≠ .wait) :
       simp only [Conn.app_spool, hx', Conn.app_maxSize, a, b, ↓reduceIte,
         List.take_append_of_le_length h2, hd]
       have : ¬ m.code ≥ 224 := by omega
-      simp only [this, ↓reduceIte, hc1, Conn.app_csm, Conn.consume_csm, h4, Option.isNone_none,
-        Step.app, Conn.note_app]
+      simp only [this, ↓reduceIte, hc1, Conn.app_csm, Conn.consume_csm, h4.1, h4.2,
+        Option.isNone_none, Step.app, Conn.note_app]
     · rw [hs]
       unfold step
       simp only [Conn.app_spool, hx', Conn.app_maxSize, a, b, ↓reduceIte,
         List.take_append_of_le_length h2, hd]
       have : ¬ m.code ≥ 224 := by omega
-      have hn : c.csm.isNone = false := by
-        cases hc : c.csm with
-        | none => exact absurd hc h4
-        | some _ => rfl
-      simp only [this, ↓reduceIte, hc1, Conn.app_csm, Conn.consume_csm, hn, Bool.false_eq_true,
-        Step.app]
+      by_cases h0 : m.code = 0
+      · simp only [this, ↓reduceIte, hc1, h0, deliver, Step.app]
+        simp
+      · have hne : c.csm ≠ none := by
+          rcases h4 with h4 | h4
+          · exact absurd h4 h0
+          · exact h4
+        have hn : c.csm.isNone = false := by
+          cases hc : c.csm with
+          | none => exact absurd hc hne
+          | some _ => rfl
+        simp only [this, ↓reduceIte, hc1, Conn.app_csm, Conn.consume_csm, hn, Bool.false_eq_true,
+          h0, deliver, Step.app]
 
 /-- a continuing iteration takes a whole frame (at least two bytes) off the spool and keeps the
 configuration -/
@@ -371,7 +391,7 @@ theorem step_closed (c : Conn) :
     · rw [hs]
       refine ⟨fun c' o h => ?_, (fun _ _ h => by cases h)⟩
       simp only [Step.next.injEq] at h
-      rw [← h.1, ← h.2, dispatchIncoming_no_close]
+      rw [← h.1, ← h.2, deliver_no_close]
       simp
 
 theorem step_stop_maxSize {c c' : Conn} {o : List Out} (h : step c = .stop c' o) :
@@ -408,7 +428,7 @@ theorem step_next_open {c c' : Conn} {o : List Out} (h : step c = .next c' o) :
   · rw [hs] at h
     simp only [Step.next.injEq] at h
     rw [← h.1, ← h.2]
-    exact ⟨rfl, dispatchIncoming_no_close m⟩
+    exact ⟨rfl, deliver_no_close m⟩
 
 -- ---------------------------------------------------------------------------------------------
 -- the drain loop
